@@ -143,10 +143,10 @@ theorem wf_of_pinv (cfg : Cfg) (f : FrameIn) (vals : Vals) (hr : RegOnly vals) (
       rw [patch_regType]; exact hpair.grp
     refine ⟨hout.symm, hpair.srcReg, hpair.srcNotStk, by show (patchRegDst _).isReg = true; rw [patch_isReg]; exact hpair.dstReg, rfl, hgrp,
       by show groupOf (patchRegDst _).regType < 4; rw [patch_regType]; exact hgl, hpair.srcLt,
-      by show (patchRegDst _).regId < 32; rw [patch_regId]; exact hdl, ?_, ?_, ?_⟩
+      by show (patchRegDst _).regId < 32; rw [patch_regId]; exact hdl, ?_, ?_⟩
     · show physAt c2 (groupOf (srcAt vals i).regType) (srcAt vals i).regId = some i
       rw [hphys _ _ (by rw [hpair.grp]; exact hgl)]; exact hP.phys i hi'
-    · refine ⟨initTok (vals.map varInfoOf) i, ?_, rfl, fun _ => Or.inl ⟨by rw [hsrc]; rfl, by rw [hsrc]; rfl, rfl⟩, ?_, fun _ _ => rfl⟩
+    · refine ⟨initTok (vals.map varInfoOf) i, ?_, rfl, fun _ => Or.inl ⟨by rw [hsrc]; rfl, by rw [hsrc]; rfl, rfl, fun h => h⟩, ?_⟩
       · have := initFrom_get (vals.map varInfoOf) vals 0
           (fun j hj => ⟨dstAt vals j, (hr.pair j hj).1, (hr.pair j hj).2.srcReg⟩)
           (fun a b ha hb hab => hr.dist a b ha hb hab) i hi'
@@ -157,7 +157,6 @@ theorem wf_of_pinv (cfg : Cfg) (f : FrameIn) (vals : Vals) (hr : RegOnly vals) (
           simp only [mkVar, doneAtInit, Bool.and_eq_true, decide_eq_true_eq] at hdone
           show (srcAt vals i).regId = (patchRegDst (dstAt vals i)).regId
           rw [this]; exact hdone.1.symm, hd0 i hi' hdone⟩
-    · intro _ _; exact hsrc.symm
   · -- no variable sits in a stack slot
     intro i hi hnr
     exfalso
@@ -255,7 +254,7 @@ theorem shuffle_correct_regs (cfg : Cfg) (f : FrameIn) (vals : Vals) (hr : RegOn
         intro j hj
         have hv := hw'.var j hj (hkind j hj)
         obtain ⟨hdd, hpair⟩ := hr.pair j hj
-        obtain ⟨tok, hget, htv, _, hd, _⟩ := hv.tok
+        obtain ⟨tok, hget, htv, _, hd⟩ := hv.tok
         obtain ⟨hreg, hdv⟩ := hd (hdone j hj (hkind j hj))
         have hout : (e.ctx.var j).out = patchRegDst (dstAt vals j) := by rw [hv.out]; exact params_out cfg f vals j hj
         refine ⟨dstAt vals j, hdd, hpair.dstReg, ?_⟩
